@@ -8,4 +8,4 @@ package api
 //@ func extractAddressInfos
 //@   props C16 C19
 //@   requires config.ChainParams != nil
-//@   dead return#3
+//@   dead returns 1
